@@ -193,12 +193,16 @@ def write_market(dirpath, market, rng=None, adj_factor=None):
         rows = sorted((int(d), oc) for d, oc in bars.items())
         if rng is not None:
             rng.shuffle(rows)
+        cols = ["Date", "Open", "High", "Low", "Close", "Adj Close", "Volume"]
+        if rng is not None and rng.random() < 0.5:
+            rng.shuffle(cols)                   # columns are found by name
         with open(os.path.join(dirpath, a + ".csv"), "w") as fh:
-            fh.write("Date,Open,High,Low,Close,Adj Close,Volume\n")
+            fh.write(",".join(cols) + "\n")
             for d, (o, c) in rows:
                 date = (EPOCH + pd.Timedelta(days=d)).strftime("%Y-%m-%d")
                 f = lambda x: "" if x == 0 else repr(x / 1000.0)
-                fh.write("%s,%s,%s,%s,%s,%s,%d\n" % (date, f(o), f(99000), f(1000), f(c), f(c), 1000))
+                cell = {"Date": date, "Open": f(o), "High": f(99000), "Low": f(1000), "Close": f(c), "Adj Close": f(c), "Volume": "1000"}
+                fh.write(",".join(cell[k] for k in cols) + "\n")
 
 
 def fx(v):
